@@ -23,9 +23,9 @@ pub fn check(tier: Tier) -> Check {
         let d = match (tier, k) {
             (Tier::Quick, 0) => 6,
             (Tier::Quick, _) => 5,
-            (Tier::Thorough, 0) => 6,
-            (Tier::Thorough, 1) => 5,
-            (Tier::Thorough, _) => 4,
+            (Tier::Thorough, 0) => 7,
+            (Tier::Thorough, 1) => 6,
+            (Tier::Thorough, _) => 5,
         };
         parts.push(Part::new("C13/causes", json!({"depth": d}), k, tier.pick(40, 600)));
         if k == 0 {
